@@ -35,6 +35,22 @@ def impl_nodes(c):
     return _try(run)
 
 
+def point_sample_sum(a, s_old, m, s_new):
+    """independent recomputation of the bilinear point samples of one centred pattern at the new pixel centres (their sum)"""
+    def axis(n, so, mm, sn):
+        k = (np.arange(n) - n // 2) * so
+        kn = (np.arange(mm) - mm // 2) * sn
+        idx = np.clip(np.floor((kn - k[0]) / so + 1e-9).astype(int), 0, n - 1)
+        w = np.where(kn < k[0] - 1e-12, 0.0, (kn - k[idx]) / so)
+        w = np.where(np.abs(w) < 1e-9, 0.0, w)
+        return idx, np.minimum(idx + 1, n - 1), w
+    v0, v1, vw = axis(a.shape[0], s_old[0], m[0], s_new[0])
+    u0, u1, uw = axis(a.shape[1], s_old[1], m[1], s_new[1])
+    out = (a[np.ix_(v0, u0)] * np.outer(1 - vw, 1 - uw) + a[np.ix_(v0, u1)] * np.outer(1 - vw, uw)
+           + a[np.ix_(v1, u0)] * np.outer(vw, 1 - uw) + a[np.ix_(v1, u1)] * np.outer(vw, uw))
+    return float(out.sum())
+
+
 def arr_of(m):
     a = m.array
     return np.asarray(a.compute() if hasattr(a, "compute") else a)
@@ -109,18 +125,22 @@ class C16(Property):
     # ------------------------------------------------------------------ conformance
     def gen_conf(self, ctx):
         rng = ctx.rng
-        kind = rng.choice(["dp_interp", "dp_interp", "img_interp", "img_interp", "source_dp", "source_polar"])
+        kind = rng.choice(["dp_interp", "dp_interp", "img_interp", "img_interp", "source_dp", "source_polar", "lazy_filter"])
         c = {"kind": kind, "seed": rng.randint(0, 10 ** 6)}
         if kind == "dp_interp":
             c.update(gpts=[rng.randint(4, 14), rng.randint(4, 14)], sampling=[rng.choice([0.05, 0.08, 0.1]), rng.choice([0.05, 0.08, 0.1])],
-                     new=rng.choice(["uniform", "float", "float", "float"]), new_sampling=rng.choice([0.03, 0.06, 0.11, 0.2]),
-                     members=rng.choice(["random", "random", "with-zero", "sparse"]), shifted=True)
+                     new=rng.choice(["uniform", "float", "float", "float", "gpts"]), new_sampling=rng.choice([0.03, 0.06, 0.11, 0.2]),
+                     new_gpts=[rng.randint(3, 16), rng.randint(3, 16)],
+                     members=rng.choice(["random", "random", "with-zero", "sparse"]), shifted=rng.random() < 0.7)
         elif kind == "img_interp":
             g = [rng.randint(4, 16), rng.randint(4, 16)]
             c.update(gpts=g, sampling=[rng.choice([0.1, 0.2]), rng.choice([0.1, 0.2])],
                      new_gpts=rng.choice([g, g, [g[0] + rng.randint(1, 6), g[1] + rng.randint(1, 6)],
                                           [max(2, g[0] - rng.randint(1, 3)), max(2, g[1] - rng.randint(1, 3))], [2 * g[0], 2 * g[1]]]),
                      complex=rng.random() < 0.4, ens=rng.choice([[], [2]]))
+        elif kind == "lazy_filter":
+            c.update(scan=[rng.randint(8, 16), rng.randint(8, 16)], chunk=rng.choice([3, 4, 5]), scan_sampling=rng.choice([0.1, 0.2, 0.25]),
+                     sigma=rng.choice([0.3, 0.5, 0.8]), what=rng.choice(["images", "source"]))
         else:
             c.update(scan=[rng.randint(4, 8), rng.randint(4, 8)], scan_sampling=rng.choice([0.2, 0.25, 0.4]), gpts=[rng.randint(5, 9), rng.randint(5, 9)],
                      sigma=rng.choice([0.1, 0.3, 0.5, [0.2, 0.4]]), inner=rng.choice([0.0, 5.0, 10.0]), width=rng.choice([10.0, 20.0, 40.0]),
@@ -142,14 +162,24 @@ class C16(Property):
                 a[2, 1, 1] = 1.0
             d = DiffractionPatterns(a, sampling=tuple(c["sampling"]), fftshift=c["shifted"], metadata={"energy": 100e3},
                                     ensemble_axes_metadata=[OrdinalAxis(values=(0, 1, 2))])
-            r = d.interpolate(sampling="uniform" if c["new"] == "uniform" else float(c["new_sampling"]))
+            if c["new"] == "gpts":
+                try:
+                    r = d.interpolate(gpts=tuple(c["new_gpts"]))
+                except TypeError as e:
+                    ctx.violation("interpolate-gpts-only-call-raises", c, {"error": str(e)})
+                    return False
+            else:
+                r = d.interpolate(sampling="uniform" if c["new"] == "uniform" else float(c["new_sampling"]))
             b = arr_of(r)
             s0, s1 = a.sum(axis=(-2, -1)), b.sum(axis=(-2, -1))
             bad = [i for i in range(3) if not (np.isfinite(s1[i]) and abs(s1[i] - s0[i]) <= 1e-5 * max(abs(s0[i]), 1e-12))]
             ctx.count(f"conf-dp:{c['new']}:{c['members']}")
             if bad:
                 zero = all(s0[i] == 0 for i in bad)
-                lost = all(s0[i] != 0 and (not np.isfinite(s1[i]) or s1[i] == 0) for i in bad)
+                # the recorded finding is ONLY: the bilinear point samples at the new pixel centres of that member really are all
+                # zero (recomputed here independently of abTEM) and the returned pattern is exactly zero
+                lost = all(s0[i] != 0 and np.isfinite(s1[i]) and s1[i] == 0 and np.all(b[i] == 0)
+                           and abs(point_sample_sum(a[i], d.sampling, b.shape[-2:], r.sampling)) <= 1e-12 * abs(s0[i]) for i in bad)
                 ctx.violation("interpolate-zero-pattern-not-preserved" if zero else
                               "interpolate-total-lost-when-resampled-sum-zero" if lost else "interpolate-total-not-preserved", c,
                               {"members": bad, "old_sums": s0.tolist(), "new_sums": [float(v) if np.isfinite(v) else "nan" for v in s1]})
@@ -178,6 +208,24 @@ class C16(Property):
             ext1 = [g * s for g, s in zip(r.shape[-2:], r.sampling)]
             if max(abs(x - y) for x, y in zip(ext0, ext1)) > 1e-9:
                 ctx.violation("fourier-interpolation-changes-extent", c, {"old": ext0, "new": ext1})
+                return False
+            return True
+        if c["kind"] == "lazy_filter":
+            # the lazy (map_overlap, several blocks along the scan axes) filter must equal the eager one
+            import dask.array as da
+            scan = [ScanAxis(sampling=c["scan_sampling"]), ScanAxis(sampling=c["scan_sampling"])]
+            if c["what"] == "images":
+                a = rng.random(tuple(c["scan"])).astype(np.float32)
+                eager = arr_of(Images(a, sampling=c["scan_sampling"]).gaussian_filter(c["sigma"]))
+                lazy = arr_of(Images(da.from_array(a, chunks=(c["chunk"], c["chunk"])), sampling=c["scan_sampling"]).gaussian_filter(c["sigma"]))
+            else:
+                a = rng.random(tuple(c["scan"]) + (4, 4)).astype(np.float32)
+                mk = lambda arr: DiffractionPatterns(arr, sampling=0.05, fftshift=True, metadata={"energy": 100e3}, ensemble_axes_metadata=scan)
+                eager = arr_of(mk(a).gaussian_source_size(c["sigma"]))
+                lazy = arr_of(mk(da.from_array(a, chunks=(c["chunk"], c["chunk"], 4, 4))).gaussian_source_size(c["sigma"]))
+            ctx.count(f"conf-lazy-filter:{c['what']}")
+            if eager.shape != lazy.shape or np.abs(eager - lazy).max() > 2e-5 * float(np.abs(eager).max()):
+                ctx.violation(f"lazy-filter-differs-from-eager:{c['what']}", c, {"max_abs_diff": float(np.abs(eager - lazy).max())})
                 return False
             return True
         # source size filtering commutes with integration
